@@ -190,6 +190,28 @@ pub fn check_fine(v: V3, r: i32) -> (u64, Vec<Viol>) {
     if s0.len() > 1 {
         out.push(viol("C03/overlap", format!("point lies strictly inside {} cells of resolution {}: {:?}", s0.len(), r, s0.iter().map(|&c| subj::hex(c)).collect::<Vec<_>>()), case.clone()));
     }
+    // corners and edge midpoints of a cell are strictly inside no cell (cells of two faces that are
+    // sheared against each other push each other's corners into their interiors)
+    for g in &geoms {
+        for q in geo::cell_interior_points(&g.poly, &[1.0]).into_iter().skip(1) {
+            if let Ok(w) = subj::inverse(q, g.face) {
+                // the point must really be on g's boundary as seen through the forward projection
+                match subj::forward(w, g.face) {
+                    Ok(p) if rg::signed_dist_convex(&g.poly, p).abs() <= 1e-12 => {}
+                    _ => continue,
+                }
+                let s = strict_in(w);
+                if let Some(&o) = s.iter().find(|&&x| x != g.id) {
+                    out.push(viol(
+                        "C03/overlap",
+                        format!("a corner or edge midpoint of {} lies strictly inside {} (resolution {})", subj::hex(g.id), subj::hex(o), r),
+                        json!({"kind": "cell_pair", "a": subj::hex(g.id), "b": subj::hex(o)}),
+                    ));
+                    return (geoms.len() as u64, out);
+                }
+            }
+        }
+    }
     // the library's own containment predicate must agree that strict-interior points of a cell are
     // inside that cell only (it decides which cell a lookup returns)
     let cells_a5: Vec<(u64, a5::core::utils::A5Cell)> = geoms.iter().filter_map(|g| subj::deserialize(g.id).ok().map(|c| (g.id, c))).collect();
@@ -285,8 +307,32 @@ pub fn run(tier: &str) -> Report {
     };
     let fine_res: &[i32] = if tier == "quick" { &[8, 16, 24, 29] } else { &[7, 8, 10, 12, 14, 16, 18, 20, 22, 24, 26, 27, 28, 29] };
     let fine_cells = AtomicU64::new(0);
+    // points along the 30 dodecahedron edges (away from the midpoints), within one cell of the edge:
+    // this is where cells of two faces interlock
+    let edge_tracks: Vec<(V3, V3)> = {
+        let mut v = Vec::new();
+        let nedges = if tier == "quick" { 10 } else { 30 };
+        for m in fr.midpoints.iter().take(nedges) {
+            let mut vs: Vec<(f64, V3)> = fr.vertices.iter().map(|x| (rg::ang(*x, *m), *x)).collect();
+            vs.sort_by(|a, b| a.0.partial_cmp(&b.0).unwrap());
+            let (a, b) = (vs[0].1, vs[1].1);
+            let nrm = rg::unit(rg::cross(a, b));
+            for t in [0.15, 0.35, 0.8] {
+                let p = rg::unit(rg::add(rg::scale(a, 1.0 - t), rg::scale(b, t)));
+                v.push((p, nrm));
+            }
+        }
+        v
+    };
     for &r in fine_res {
-        let vs: Vec<Viol> = sub
+        let size = geo::cell_size(r);
+        let mut pts_r: Vec<V3> = sub.clone();
+        for (p, nrm) in &edge_tracks {
+            for o in [0.0, 0.3, -0.3, 0.8, -0.8] {
+                pts_r.push(rg::unit(rg::add(*p, rg::scale(*nrm, o * size))));
+            }
+        }
+        let vs: Vec<Viol> = pts_r
             .par_iter()
             .flat_map(|v| {
                 let (n, out) = check_fine(*v, r);
